@@ -159,7 +159,7 @@ def _worker(job):
             for k, d in check_case(case):
                 s.fail(k, case, d)
 
-        H.hyp_run(case_st(cls), body, n, H.derive_seed(seed, name))
+        H.hyp_run(case_st(cls), body, n, H.derive_seed(seed, name), stats=s)
         s.label("classes covered")
     return s
 
